@@ -174,9 +174,14 @@ def run_solve(case):
         for klab, K in (("", Kspd), ("nonsym/", Kspd + 2.0 * zoo.offarr(seed, 1211, (N, N)))):
           Ks = csr_matrix(K)
           for size in (0, 1, 2, 3):
-            for d0 in itertools.combinations(range(N), size):
-                dof0 = np.array(d0, dtype=int)
-                dof1 = np.array(sorted(set(range(N)) - set(d0)), dtype=int)
+            for d0, o0, o1 in itertools.product(itertools.combinations(range(N), size), ("asc", "desc"), ("asc", "desc", "rolled")):
+                # the index lists in every order a caller may hand them over in (ext0 is aligned with dof0): ascending, descending,
+                # rotated -- e.g. dof0 concatenated from the boundaries of a dictionary
+                if (o0 == "desc" and size < 2) or ((o0, o1) != ("asc", "asc") and klab and size == 3):
+                    continue
+                dof0 = np.array(d0 if o0 == "asc" else d0[::-1], dtype=int)
+                d1 = sorted(set(range(N)) - set(d0))
+                dof1 = np.array(d1 if o1 == "asc" else (d1[::-1] if o1 == "desc" else d1[2:] + d1[:2]), dtype=int)
                 for elab in ("none", "zeros", "generic"):
                     if elab == "none":
                         if size and np.abs(u[dof0]).max() > 0:
@@ -203,7 +208,7 @@ def run_solve(case):
                     c.traces += 1
                     c.states += 1
                     du = np.asarray(du).ravel()
-                    sub = f"{cont}/{klab}dof0={list(d0)}/ext0={elab}"
+                    sub = f"{cont}/{klab}dof0={dof0.tolist()}/ext0={elab}" + ("" if o1 == "asc" else f"/dof1={o1}")
                     if size and not np.array_equal(du[dof0], target - uu[dof0]):
                         c.bad(sub + "/prescribed", "prescribed increments must be ext0 - u0 (exactly)", (du[dof0]).tolist(), (target - uu[dof0]).tolist())
                     res1 = K[np.ix_(dof1, dof1)] @ du[dof1] + r[dof1] + (K[np.ix_(dof1, dof0)] @ (target - uu[dof0]) if size else 0)
@@ -211,6 +216,12 @@ def run_solve(case):
                     c.nontrivial.append(sub)
                     if e > 1e-12:
                         c.bad(sub + "/reduced", "reduced system K11 du1 + r1 + K10 (ext0 - u0) = 0", float(e), 0, 1e-12)
+                    if elab == "generic" and (o0, o1) == ("asc", "asc") and size in (1, 2):
+                        for fmt in ("csc", "lil"):  # (formats that support indexing)
+                            du_f = np.asarray(fem.solve.solve(*fem.solve.partition(f2, getattr(Ks, "to" + fmt)(), dof1, dof0, r), ext0)).ravel()
+                            c.trans += 1
+                            if np.abs(du_f - du).max() > 1e-13 * max(np.abs(du).max(), 1.0):
+                                c.bad(sub + f"/format={fmt}", "partitioned solve with the matrix in another sparse format", float(np.abs(du_f - du).max()), 0, 1e-13)
                     if elab == "generic" and size:
                         parts = fem.tools.solve(Ks, -r, f2, dof0, dof1, f2.offsets, ext0)
                         flat = np.concatenate([np.asarray(p).ravel() for p in parts])
